@@ -61,7 +61,8 @@ def gen_tablelist():
                             continue
                         yield {"k": "tablelist", "pos": pos, "default": dflt, "trig": trig, "ctx": ctx, "sel": sel}
     # what the trigger cell names: whatever is accepted must yield the action (nothing is lost silently)
-    for src in ("text", "select_one c", "note", "hidden", "today", "deviceid", "calculate", "group", "repeat", "two-refs", "ref-with-text", "start-geopoint", "last-saved"):
+    for src in ("text", "select_one c", "note", "hidden", "today", "deviceid", "calculate", "group", "repeat", "two-refs", "ref-with-text", "start-geopoint", "last-saved",
+                "padded-right", "padded-left", "padded-both", "padded-tab"):  # blanks around the reference, cell cleaning switched off
         for tgt in ("calculate", "text", "background-geopoint"):
             yield {"k": "trigsrc", "src": src, "tgt": tgt}
     # the sections / include API: triggers and defaults inside an included section, at top level and inside a group / repeat
@@ -223,6 +224,9 @@ def check_trigsrc(case):
     elif src == "last-saved":
         rows += [{"type": "text", "name": "a", "label": "A"}]
         trig = "${last-saved#a}"
+    elif src.startswith("padded"):
+        rows += [{"type": "text", "name": "a", "label": "A"}]
+        trig = {"padded-right": "${a} ", "padded-left": "  ${a}", "padded-both": " ${a}  ", "padded-tab": "${a}\t"}[src]
     elif src == "calculate":
         rows += [{"type": "calculate", "name": "a", "calculation": "1"}]
     elif src in ("hidden", "today", "deviceid", "start-geopoint"):
@@ -235,7 +239,10 @@ def check_trigsrc(case):
     if tgt != "background-geopoint":
         t["calculation"] = "${t0} + 1"
     rows.append(t)
-    out = run_convert({"survey": rows, "choices": [dict(c) for c in CHOICES]})
+    wb = {"survey": rows, "choices": [dict(c) for c in CHOICES]}
+    if src.startswith("padded"):
+        wb["settings"] = [{"clean_text_values": "no"}]
+    out = run_convert(wb)
     if out.kind == "crash":
         return {"outcome": "crash", "nt": False, "viol": [], "tr": len(rows)}
     if out.kind == "reject":
